@@ -1,5 +1,10 @@
 TLA = "TLA+ spec + TLC model checking + trace validation of the real code (conformance)"
 TEXTS = {
+ "C01": {
+  "level": "RecvProof of PeerSync.tla commits trusted state only through ProofCommit, whose guard is the conjunction of all verification attributes; TLC checks on the bounded model that every message class with one failed attribute leaves the trusted state unchanged. On the real code, for requests the client itself generated (random FlyClient samples) in five kinds of pre-state (first proof, new proof, after restart, reorg, no-sample range), every mutation of the honest answer from a catalogue (every raw header field, uncles hash, extension, every parent-chain-root field, drop/duplicate/swap of headers and proof items, fork headers, and RE-PROVED structural changes: hidden / replaced / extra samples, holes in the last-N and reorg sections) is delivered and must be banned with the projected trusted state unchanged, after which the honest answer must still be accepted; adversarial branches with one unmined (real Eaglesong PoW) or non-committing block are served by the honest algorithm and must be rejected exactly when a flawed header is shown.",
+  "ref": "DESIGN.md 4 C01", "technique": TLA,
+  "note": "mutation catalogue is finite; positions are a seeded sample in quick and all positions in thorough",
+ },
  "C05": {
   "level": "TLC explores exhaustively every interleaving of connect/disconnect/time/refresh/announcement/proof events for 2 peers on a small forked world (honest, invalid, stale, unsolicited and tip-state answers); seeded random honest-peer histories on generated variable-difficulty chains (Dummy and Eaglesong PoW, forks shallower than last-N, restarts, 1-3 peers) are executed on the real client and every logged step must be a step of PeerSync.tla: an honest answer must be committed, no ban and no disconnect other than the specified timeouts may occur, and at quiescence the stored tip must be a heaviest announced tip. Bounded, not a proof.",
   "ref": "DESIGN.md 4 C05", "technique": TLA,
